@@ -17,6 +17,7 @@ def main():
         from harness.rp_boot import boot
         rp = boot()
         from harness import builders
+        from harness import sched_sim                  # noqa: registers builders
         fn = builders.BUILDERS.get(case['function'])
         if fn is None:
             out = dict(confirmed=None,
